@@ -108,6 +108,9 @@ func judgeC13Unit(u *Unit, rr *RunResult, i int) []Issue {
 		if inside == 0 && outside > 0 {
 			issues = append(issues, Issue{"no-diagnostic-inside-input", fmt.Sprintf("compilation failed and none of the %d printed locations lies inside an input file, e.g. %s", outside, firstOutside)})
 		}
+		if inside == 0 && outside == 0 && len(u.Project.Files) > 0 {
+			issues = append(issues, Issue{"no-diagnostic-location", "compilation failed and no diagnostic carries a location (file:line:column) at all: " + firstLines(serr, 3)})
+		}
 	}
 	return issues
 }
